@@ -256,6 +256,11 @@ func checkC03(p *Prog, r *Report) {
 		}
 	}
 	p.WithHelperParams(func() { c03GateArgs(p, ib, r) })
+	r.Rule("R6", "a binding is revoked exactly for the client it was made for: RemoveBinding keeps ⇔ ¬(client address ∧ server feature equal); RemoveBindingsForEntity keeps ⇔ ¬(client device ∧ client entity equal) — a disappearing writer loses its own bindings and nobody else's (retain truth tables, shared with C09-R2/C10-R1)")
+	applyRetain(p, r, "R6", "spine", "BindingManager", "RemoveBinding", retainSpec{Field: F("BindingManager.bindingEntries"),
+		Required: map[string]string{"client.address": "=ClientFeature.Address()", "server.feature": "=ServerFeature"}})
+	applyRetain(p, r, "R6", "spine", "BindingManager", "RemoveBindingsForEntity", retainSpec{Field: F("BindingManager.bindingEntries"),
+		Required: map[string]string{"client.device": "ClientFeature.Device().Ski()|ClientFeature.Address().Device", "client.entity": "ClientFeature.Address().Entity"}})
 	r.Assumes("loops are unrolled at most once; the inbound datagram is abstracted to classifier x ackRequest x approval callbacks",
 		"HasLocalFeatureRemoteBinding itself is checked by C09-R6; registry contents are not interpreted")
 }
